@@ -86,7 +86,9 @@ pub struct Input {
     /// atom of block 0..3
     pub atoms: [u8; 4],
     pub rel: u8,
-    /// 0 = MemSource (length hint), 1 = integer source without hint, 2 = LE-byte source without hint
+    /// 0 = MemSource (length hint), 1 = integer source without hint, 2 = LE-byte source without hint,
+    /// 3 / 4 = integer source whose length hint is rounded up / down to whole blocks, 5 = integer source that
+    /// issues an empty fill before every block
     pub delivery: u8,
     #[serde(default)]
     pub seed: u64,
@@ -174,7 +176,7 @@ pub fn domain_size(c: usize) -> usize {
         5 => TAILS.len(),
         6..=9 => atoms::N_ATOMS,
         10 => atoms::N_RELS,
-        11 => 3,
+        11 => 6,
         12 => WORKERS.len(),
         13..=18 => 2,
         19 => 5,
